@@ -434,7 +434,13 @@ func TestZZVerifC01Trace(t *testing.T) {
 				cur = next
 			}
 
-			w.put(map[string]any{"ev": "cfg", "ci": ci, "step": step, "cfg": cur, "lists": z.texts})
+			logged := cur
+			if z.protOff {
+				// the flag was set during a running pause and the server
+				// reports that the pause still holds (see setProt)
+				logged.Prot = "paused"
+			}
+			w.put(map[string]any{"ev": "cfg", "ci": ci, "step": step, "cfg": logged, "lists": z.texts})
 			for qi := 0; qi < 16; qi++ {
 				n := targets[rng.Intn(len(targets))]
 				switch rng.Intn(5) {
